@@ -173,3 +173,38 @@ func VP_C10_readHeader() {
 		vpReach("short")
 	}
 }
+
+//vp:property C08 C06
+//vp:set npk 2 3
+//vp:set loopmax 600000 600000
+//vp:bounds websocket transport through handleWebsocketProtocol: the four set-up packets (one per message), then ONE websocket message carrying npk DATA packets of the largest payload (65535 bytes each; first and last byte of each symbolic), then the client drops; whatever read limit the handler configures on the connection is honoured by the transport model
+//vp:assume gorilla: a message larger than the configured read limit fails the read; no limit is configured by default
+//vp:reach relayed
+func VP_C08_ws_coalesced() {
+	vpResetHandlers()
+	npk := vpParam("npk")
+	var msg, want []byte
+	for i := 0; i < npk; i++ {
+		pl := make([]byte, 65535)
+		for j := range pl {
+			pl[j] = 0xC3
+		}
+		pl[0], pl[65534] = vpU8("first"+strconv.Itoa(i)), vpU8("last"+strconv.Itoa(i))
+		msg = append(msg, vpPacket(0xA, append([]byte{0xFF, 0xFF}, pl...))...)
+		want = append(want, pl...)
+	}
+	tr := &vpTransport{in: [][]byte{vpSetupPacket(0), vpSetupPacket(1), vpSetupPacket(2), vpSetupPacket(3), msg}}
+	vpNextTransports = []*vpTransport{tr}
+	g := &Gateway{}
+	t := &Tunnel{RDGId: "conn-1", User: vpUser(), RemoteAddr: "10.0.0.1:1"}
+	g.handleWebsocketProtocol(vpCtx(), nil, t)
+	vpRunTasks()
+	vpReach("relayed")
+	vpAssume(len(vpDialConns) == 1) // the host accepted the connection
+	var got []byte
+	for _, w := range vpDialConns[0].written {
+		got = append(got, w...)
+	}
+	vpAssert(len(got) == len(want), "every-coalesced-packet-is-processed")
+	vpAssert(vpEqBytes(got, want), "coalesced-payloads-reach-the-host-in-order")
+}
